@@ -1821,6 +1821,179 @@ fn expr_ty_hint(e: &Expr) -> Ty {
     }
 }
 
+// ---- analysis: lazily read operands ----------------------------------------------------------------
+
+fn writes_block(b: &Block, out: &mut std::collections::BTreeSet<String>) {
+    for s in &b.stmts {
+        writes_stmt(s, out);
+    }
+    writes_expr(&b.tail, out);
+}
+fn writes_stmts(ss: &[Stmt], out: &mut std::collections::BTreeSet<String>) {
+    for s in ss {
+        writes_stmt(s, out);
+    }
+}
+fn writes_stmt(s: &Stmt, out: &mut std::collections::BTreeSet<String>) {
+    match s {
+        Stmt::Let(_, _, _, e) | Stmt::Expr(e) | Stmt::Assert(e, _) => writes_expr(e, out),
+        Stmt::Assign(n, e) | Stmt::OpAssign(n, _, _, e) => {
+            out.insert(n.clone());
+            writes_expr(e, out);
+        }
+        Stmt::IfS(c, a, b) => {
+            writes_expr(c, out);
+            writes_stmts(a, out);
+            writes_stmts(b, out);
+        }
+        Stmt::While(_, _, c, b) => {
+            writes_expr(c, out);
+            writes_stmts(b, out);
+        }
+        Stmt::ForRange(_, _, a, b, body) => {
+            writes_expr(a, out);
+            writes_expr(b, out);
+            writes_stmts(body, out);
+        }
+        Stmt::ForSpan(_, _, _, body) => writes_stmts(body, out),
+        Stmt::ArrNew(_, _, es) => es.iter().for_each(|e| writes_expr(e, out)),
+        Stmt::ArrAppend(n, e) => {
+            out.insert(n.clone());
+            writes_expr(e, out);
+        }
+        Stmt::ArrPop(_, n, _) => {
+            out.insert(n.clone());
+        }
+        Stmt::DictNew(..) => {}
+        Stmt::DictInsert(n, a, b) => {
+            out.insert(n.clone());
+            writes_expr(a, out);
+            writes_expr(b, out);
+        }
+        Stmt::ReturnIf(a, b) => {
+            writes_expr(a, out);
+            writes_expr(b, out);
+        }
+    }
+}
+/// Variables assigned (or passed by `ref`, or mutated as array / dict) anywhere inside `e`.
+fn writes_expr(e: &Expr, out: &mut std::collections::BTreeSet<String>) {
+    for c in children(e) {
+        writes_expr(c, out);
+    }
+    match e {
+        Expr::If(_, a, b) | Expr::MatchBool(_, a, b) | Expr::MatchOpt(_, _, a, b) => {
+            writes_block(a, out);
+            writes_block(b, out);
+        }
+        Expr::MatchEnum(_, _, arms) => arms.iter().for_each(|(_, b)| writes_block(b, out)),
+        Expr::MatchNum(_, _, arms, d) => {
+            arms.iter().for_each(|b| writes_block(b, out));
+            writes_block(d, out);
+        }
+        Expr::Block(b) => writes_block(b, out),
+        Expr::Loop(l) => {
+            writes_expr(&l.cond, out);
+            writes_stmts(&l.body, out);
+            writes_expr(&l.result, out);
+        }
+        Expr::Call(_, args) => {
+            for a in args {
+                if let Arg::Ref(n) = a {
+                    out.insert(n.clone());
+                }
+            }
+        }
+        Expr::DictGet(n, _) => {
+            out.insert(n.clone());
+        }
+        _ => {}
+    }
+}
+/// The ordered operand expressions of `e` (blocks are handled by the callers).
+fn children(e: &Expr) -> Vec<&Expr> {
+    match e {
+        Expr::Bin(_, _, a, b) | Expr::Cmp(_, _, a, b) | Expr::AndAnd(a, b) | Expr::OrOr(a, b) | Expr::UnwrapOr(a, b) => vec![a, b],
+        Expr::Neg(_, a) | Expr::BitNot(_, a) | Expr::Not(a) | Expr::Into(_, _, a) | Expr::TryIntoUnwrap(_, _, a) | Expr::TryInto(_, _, a) | Expr::TupleField(a, _, _)
+        | Expr::Permute(a, _, _) | Expr::Field(a, _, _) | Expr::Some_(a) | Expr::Unwrap(a) | Expr::IsSome(a) | Expr::ArrAt(_, a) | Expr::ArrGet(_, a) | Expr::DictGet(_, a)
+        | Expr::SpanAt(_, a) => vec![a],
+        Expr::Tuple(es) | Expr::StructLit(_, es) => es.iter().collect(),
+        Expr::EnumLit(_, _, Some(p)) => vec![p],
+        Expr::If(c, _, _) | Expr::MatchBool(c, _, _) | Expr::MatchOpt(c, _, _, _) | Expr::MatchEnum(_, c, _) | Expr::MatchNum(_, c, _, _) => vec![c],
+        Expr::Call(_, args) => args.iter().filter_map(|a| if let Arg::Val(e) = a { Some(e) } else { None }).collect(),
+        _ => vec![],
+    }
+}
+/// Variable a *place* operand refers to (a bare variable or a member path of one): these are
+/// materialised by the compiler only when the enclosing value is built.
+fn place_var(e: &Expr) -> Option<&str> {
+    match e {
+        Expr::Var(n) => Some(n),
+        Expr::Field(a, _, _) => place_var(a),
+        _ => None,
+    }
+}
+fn hazard_expr(e: &Expr) -> bool {
+    let cs = children(e);
+    // Operands that are places, followed by a sibling that assigns the same variable.
+    let multi = matches!(e, Expr::Bin(..) | Expr::Cmp(..) | Expr::Tuple(..) | Expr::StructLit(..) | Expr::Call(..) | Expr::UnwrapOr(..));
+    if multi {
+        for i in 0..cs.len() {
+            // Nested aggregates of places are built lazily as well.
+            let mut places = vec![];
+            fn collect<'a>(e: &'a Expr, out: &mut Vec<&'a str>) {
+                if let Some(v) = place_var(e) {
+                    out.push(v);
+                } else if let Expr::Tuple(es) | Expr::StructLit(_, es) = e {
+                    es.iter().for_each(|x| collect(x, out));
+                }
+            }
+            collect(cs[i], &mut places);
+            if places.is_empty() {
+                continue;
+            }
+            let mut w = Default::default();
+            for later in &cs[i + 1..] {
+                writes_expr(later, &mut w);
+            }
+            if places.iter().any(|v| w.contains(*v)) {
+                return true;
+            }
+        }
+    }
+    if cs.iter().any(|c| hazard_expr(c)) {
+        return true;
+    }
+    match e {
+        Expr::If(_, a, b) | Expr::MatchBool(_, a, b) | Expr::MatchOpt(_, _, a, b) => hazard_block(a) || hazard_block(b),
+        Expr::MatchEnum(_, _, arms) => arms.iter().any(|(_, b)| hazard_block(b)),
+        Expr::MatchNum(_, _, arms, d) => arms.iter().any(hazard_block) || hazard_block(d),
+        Expr::Block(b) => hazard_block(b),
+        Expr::Loop(l) => hazard_expr(&l.cond) || l.body.iter().any(hazard_stmt) || hazard_expr(&l.result),
+        _ => false,
+    }
+}
+fn hazard_block(b: &Block) -> bool {
+    b.stmts.iter().any(hazard_stmt) || hazard_expr(&b.tail)
+}
+fn hazard_stmt(s: &Stmt) -> bool {
+    match s {
+        Stmt::Let(_, _, _, e) | Stmt::Expr(e) | Stmt::Assert(e, _) | Stmt::Assign(_, e) | Stmt::OpAssign(_, _, _, e) | Stmt::ArrAppend(_, e) => hazard_expr(e),
+        Stmt::IfS(c, a, b) => hazard_expr(c) || a.iter().any(hazard_stmt) || b.iter().any(hazard_stmt),
+        Stmt::While(_, _, c, b) => hazard_expr(c) || b.iter().any(hazard_stmt),
+        Stmt::ForRange(_, _, a, b, body) => hazard_expr(a) || hazard_expr(b) || body.iter().any(hazard_stmt),
+        Stmt::ForSpan(_, _, _, body) => body.iter().any(hazard_stmt),
+        Stmt::ArrNew(_, _, es) => es.iter().any(hazard_expr),
+        Stmt::DictInsert(_, a, b) | Stmt::ReturnIf(a, b) => hazard_expr(a) || hazard_expr(b),
+        Stmt::ArrPop(..) | Stmt::DictNew(..) => false,
+    }
+}
+/// True iff some expression has a place operand (a variable or a member path) followed, within the
+/// same expression, by an operand that assigns that variable: `(v, { v = 0; 2 })`.
+pub fn lazy_read_hazard(p: &Program) -> bool {
+    p.funcs.iter().any(|f| hazard_block(&f.body))
+}
+
 pub fn generate(ch: &mut Choices) -> (Program, GenStats) {
     let mut g = Gen {
         ch,
